@@ -132,16 +132,19 @@ def txtId : Option RData → Nat
   | some (.txt x) => x
   | _ => 0
 
+/-- "Pick one address that is not link-local" among the A records of the SRV target
+    (`self.table.get(target, {}).get(QueryType.A, [])`) -/
+def svcAddr (rs : List Rec) (srv : Option RData) : Option Nat :=
+  match srvTarget srv with
+  | some tg => ((entry rs tg .a).filterMap routable).head?
+  | none => none
+
 /-- body of the `for service, device in self.table.items()` loop -/
 def mkSvc (rs : List Rec) (n : RName) : Option Svc :=
   match splitName n with
   | none => none
   | some (i, t) =>
-    let srv := firstRd rs n .srv
-    let addrs := match srvTarget srv with
-      | some tg => entry rs tg .a
-      | none => []
-    some ⟨t, i, (addrs.filterMap routable).head?, srvPort srv, txtId (firstRd rs n .txt), false⟩
+    some ⟨t, i, svcAddr rs (firstRd rs n .srv), srvPort (firstRd rs n .srv), txtId (firstRd rs n .txt), false⟩
 
 def tableSvcs (rs : List Rec) : List Svc := (tableNames rs).filterMap (mkSvc rs)
 
@@ -431,23 +434,28 @@ def optAgree : Option Nat → Option Nat → Bool
   | some a, some b => a == b
   | _, _ => true
 
+/-- same type (both saved): same TXT payload -/
+def sameTypeOk (e : Env) (h₁ h₂ : Hd) : Bool :=
+  !(saved e h₁ && saved e h₂ && decide (h₁.type = h₂.type)) || decide (h₁.txt = h₂.txt)
+
+/-- the models the `device_info` extractors derive agree -/
+def modelOk (e : Env) (h₁ h₂ : Hd) : Bool :=
+  !(saved e h₁ && saved e h₂) || optAgree (e.devModel h₁.type h₁.txt) (e.devModel h₂.type h₂.txt)
+
+/-- both yield a service: same response flags and device name; if they map to the same pyatv
+    protocol also the same port and identifier and no disagreement on a property key -/
+def yieldOk (e : Env) (h₁ h₂ : Hd) : Bool :=
+  match yields e h₁, yields e h₂ with
+  | some x₁, some x₂ =>
+    decide (foundOf x₁ = foundOf x₂) &&
+    (!decide (x₁.2.proto = x₂.2.proto) ||
+      (decide (h₁.port = h₂.port) && decide (x₁.2.ident = x₂.2.ident) &&
+        propsAgree (e.props h₁.txt) (e.props h₂.txt)))
+  | _, _ => true
+
 /-- two handled services of the same address do not contradict each other -/
 def hdPairOk (e : Env) (h₁ h₂ : Hd) : Bool :=
-  if h₁.addr = h₂.addr then
-    -- same type (saved): same TXT payload and instance
-    ((!(saved e h₁ && saved e h₂ && decide (h₁.type = h₂.type))) || decide (h₁.txt = h₂.txt)) &&
-    -- extracted models agree
-    ((!(saved e h₁ && saved e h₂)) || optAgree (e.devModel h₁.type h₁.txt) (e.devModel h₂.type h₂.txt)) &&
-    (match yields e h₁, yields e h₂ with
-     | some (_, i₁), some (_, i₂) =>
-        -- came with the same response flags and yield the same device name
-        decide (h₁.deep = h₂.deep) && decide (h₁.rmodel = h₂.rmodel) && decide (i₁.name = i₂.name) &&
-        -- same pyatv protocol: same port, identifier, no property disagreement
-        ((!decide (i₁.proto = i₂.proto)) ||
-          (decide (h₁.port = h₂.port) && decide (i₁.ident = i₂.ident) &&
-            propsAgree (e.props h₁.txt) (e.props h₂.txt)))
-     | _, _ => true)
-  else true
+  !decide (h₁.addr = h₂.addr) || (sameTypeOk e h₁ h₂ && modelOk e h₁ h₂ && yieldOk e h₁ h₂)
 
 def HdConsistent (e : Env) (hs : List Hd) : Prop := ∀ h₁ ∈ hs, ∀ h₂ ∈ hs, hdPairOk e h₁ h₂ = true
 
